@@ -1,14 +1,28 @@
-"""Unit `schema_rules` -- C15, KERNEL ONLY: two of the mechanisms behind "valid schemas are internally consistent".
+"""Unit `schema_rules` -- C15 / C14 / C16, KERNEL: mechanisms behind "valid schemas are internally consistent".
 
 Extracted verbatim from crates/apollo-compiler/src/schema/validation.rs:
-  validate_type_system_name          (Reserved Names: no user-defined name starts with `__`)
-  BuiltInScalars::{record_type_ref, all_used}   (the bookkeeping that decides which built-in scalars a valid schema's type map contains)
+  validate_type_system_name                       (Reserved Names: no user-defined name starts with `__`)
+  BuiltInScalars::{record_type_ref, all_used}     (the bookkeeping that decides which built-in scalars a valid schema's type map contains)
+  validate_schema                                 (its effect on the type map: "all referenced built-in scalars must be included; a built-in
+                                                   scalar that is not referenced anywhere must not be included"; everything else is kept)
 
-(The third mechanism under contract for C15, validate_implementation_field_types, lives in unit `types`.)
+(The other mechanisms under contract for C15: validate_implementation_field_types in unit `types`, validate_implementation_field_arguments in
+unit `impl_args`.)
 
-Shims (trusted): Name as its text plus an optional location; HashMap / HashSet / IndexMap as maps / sets keyed by the text;
-DiagnosticList::push appends.  Listed rewrites: `location.is_some_and(|loc| loc.file_id == FileId::BUILT_IN)` -> `is_built_in_location(&location)`,
-`name.starts_with("__")` -> `name_starts_with(name, "__")` (closure / str search without a Verus spec).
+validate_schema's contract: the type map afterwards is `types_after`: a definition stays unless it is a built-in scalar definition whose name
+no directive definition or type definition refers to; a built-in scalar that is referred to but not defined is inserted as the table's
+definition.  The per-definition validators are opaque; what is ASSUMED about them is one fact each: they call record_type_ref for exactly the
+type references of the definition they are given (`recorded`, in terms of record_type_ref's proved contract).  The `all_used` shortcut is
+proved harmless from set cardinalities (two disjoint subsets of the table's names whose sizes add up to the table's size cover it).
+Lemmas over the contract: re-validation leaves the map as it is when the references are unchanged, and restores a referenced missing scalar (C16).
+
+Shims (trusted): Name as its text plus an optional location; HashMap / HashSet / IndexMap as finite maps / sets keyed by the text, `retain`
+keeps exactly the entries the closure accepts, `for x in set` visits each element once; DiagnosticList::push appends; the static table maps each
+built-in scalar name to the definition of that name.
+Listed rewrites: `location.is_some_and(|loc| loc.file_id == FileId::BUILT_IN)` -> `is_built_in_location(&location)`,
+`name.starts_with("__")` -> `name_starts_with(name, "__")`; `for .. in &map / set` -> the index loop it desugars to; the retain closure gets its
+parameter types and a postcondition spelled out (`keep == (!built-in || not a built-in scalar name || used and defined)`; the BODY is kept and is
+checked against it); `&table[&name]` -> `table.index(&name)`.
 """
 SV = "crates/apollo-compiler/src/schema/validation.rs"
 
@@ -44,7 +58,7 @@ impl DiagnosticList {
         ensures final(self).entries@ == old(self).entries@.push(DiagnosticEntry { location, data })
     { self.entries.push(DiagnosticEntry { location, data }) }
 }
-pub struct ScalarType { pub x: u64 }
+pub struct ScalarType { pub name: Name }
 pub struct Node<T>(pub Box<T>);
 #[verifier::external_body]
 #[verifier::reject_recursive_types(K)]
@@ -55,29 +69,202 @@ impl<V> HashMap<Name, V> {
     #[verifier::external_body]
     pub fn contains_key(&self, k: &Name) -> (r: bool) ensures r == self@.dom().contains(k.key()) { unimplemented!() }
     /// number of entries (the map is finite)
-    pub uninterp spec fn spec_len(&self) -> nat;
+    pub open spec fn spec_len(&self) -> nat { self@.dom().len() }
     #[verifier::external_body]
     pub fn len(&self) -> (r: usize) ensures r == self.spec_len() { unimplemented!() }
+    /// `&map[&k]`: panics unless the key is present
+    #[verifier::external_body]
+    pub fn index(&self, k: &Name) -> (r: &V) requires self@.dom().contains(k.key()) ensures *r == self@[k.key()] { unimplemented!() }
 }
 #[verifier::external_body]
 #[verifier::reject_recursive_types(K)]
 pub struct HashSet<K> { k: core::marker::PhantomData<K> }
 impl HashSet<Name> {
     pub uninterp spec fn view(&self) -> Set<Seq<char>>;
-    pub uninterp spec fn spec_len(&self) -> nat;
+    pub open spec fn spec_len(&self) -> nat { self@.len() }
+    #[verifier::external_body]
+    pub fn contains(&self, k: &Name) -> (r: bool) ensures r == self@.contains(k.key()) { unimplemented!() }
     #[verifier::external_body]
     pub fn insert(&mut self, k: Name) -> (r: bool) ensures final(self)@ == old(self)@.insert(k.key()), r == !old(self)@.contains(k.key()) { unimplemented!() }
     #[verifier::external_body]
     pub fn len(&self) -> (r: usize) ensures r == self.spec_len() { unimplemented!() }
 }
-pub struct ExtendedType { pub x: u64 }
-pub struct Schema { pub types: HashMap<Name, ExtendedType> }
+pub struct ObjT { pub x: u64 }
+pub enum ExtendedType { Scalar(Node<ScalarType>), Object(Node<ObjT>), Interface(Node<ObjT>), Union(Node<ObjT>), Enum(Node<ObjT>), InputObject(Node<ObjT>) }
+pub struct Schema { pub types: TypeMap }
 pub struct BuiltInScalars { pub all: &'static HashMap<Name, Node<ScalarType>>, pub used_and_defined: HashSet<Name>, pub used_and_undefined: HashSet<Name> }
+'''
+
+
+PRELUDE2 = r'''
+// ---------------- shims for validate_schema (trusted) ----------------
+impl<T> core::ops::Deref for Node<T> {
+    type Target = T;
+    fn deref(&self) -> (r: &T) ensures *r == *self.0 { &*self.0 }
+}
+impl Clone for Node<ScalarType> {
+    #[verifier::external_body]
+    fn clone(&self) -> (r: Self) ensures r == *self { unimplemented!() }
+}
+pub uninterp spec fn spec_built_in(d: ExtendedType) -> bool;
+impl ExtendedType {
+    #[verifier::external_body]
+    pub fn is_built_in(&self) -> (r: bool) ensures r == spec_built_in(*self) { unimplemented!() }
+    #[verifier::external_body]
+    pub fn describe(&self) -> &'static str { unimplemented!() }
+}
+// Schema::types (an IndexMap<Name, ExtendedType>): a finite map keyed by the text of the name, plus its entries in iteration order
+#[verifier::external_body]
+pub struct TypeMap { x: u8 }
+impl TypeMap {
+    pub uninterp spec fn view(&self) -> Map<Seq<char>, ExtendedType>;
+    pub uninterp spec fn entries(&self) -> Seq<(Name, ExtendedType)>;
+    /// the stored key of an entry
+    pub uninterp spec fn key_name(&self, k: Seq<char>) -> Name;
+    #[verifier::external_body]
+    pub fn contains_key(&self, k: &Name) -> (r: bool) ensures r == self@.dom().contains(k.key()) { unimplemented!() }
+    #[verifier::external_body]
+    pub fn len(&self) -> (r: usize) ensures r == self.entries().len() { unimplemented!() }
+    // the i-th entry of `for (name, def) in &map` (listed rewrite of the for loop)
+    #[verifier::external_body]
+    pub fn index_pair(&self, i: usize) -> (r: (&Name, &ExtendedType)) requires i < self.entries().len()
+        ensures *r.0 == self.entries()[i as int].0, *r.1 == self.entries()[i as int].1 { unimplemented!() }
+    // IndexMap::retain: keeps exactly the entries for which the closure answers true (the closure here does not modify the value: `&V` for `&mut V`)
+    #[verifier::external_body]
+    pub fn retain<F: Fn(&Name, &ExtendedType) -> bool>(&mut self, keep: F)
+        requires forall|n: &Name, d: &ExtendedType| keep.requires((n, d))
+        ensures
+            forall|k: Seq<char>| #[trigger] final(self)@.dom().contains(k) ==> old(self)@.dom().contains(k) && final(self)@[k] == old(self)@[k],
+            forall|k: Seq<char>| #[trigger] old(self)@.dom().contains(k) ==> old(self).key_name(k).key() == k
+                && (final(self)@.dom().contains(k) ==> keep.ensures((&old(self).key_name(k), &old(self)@[k]), true))
+                && (!final(self)@.dom().contains(k) ==> keep.ensures((&old(self).key_name(k), &old(self)@[k]), false)),
+    { unimplemented!() }
+    #[verifier::external_body]
+    pub fn insert(&mut self, k: Name, v: ExtendedType) -> (r: Option<ExtendedType>)
+        ensures final(self)@ == old(self)@.insert(k.key(), v)
+    { unimplemented!() }
+}
+// HashSet<Name> consumed by `for name in set`: its elements in some order, each once (listed rewrite of the for loop)
+impl HashSet<Name> {
+    pub uninterp spec fn elems(&self) -> Seq<Name>;
+    #[verifier::external_body]
+    pub fn elem_count(&self) -> (r: usize)
+        ensures r == self.elems().len(), forall|k: Seq<char>| self@.contains(k) <==> exists|i: int| 0 <= i < self.elems().len() && #[trigger] self.elems()[i].key() == k
+    { unimplemented!() }
+    #[verifier::external_body]
+    pub fn elem(&self, i: usize) -> (r: Name) requires i < self.elems().len() ensures r == self.elems()[i as int] { unimplemented!() }
+}
+// the table of built-in scalar definitions (a lazily initialised static built from the built-in SDL): each name maps to the scalar definition of that name
+pub uninterp spec fn builtin_table() -> &'static HashMap<Name, Node<ScalarType>>;
+pub open spec fn table_wf(t: &HashMap<Name, Node<ScalarType>>) -> bool { forall|k: Seq<char>| #[trigger] t@.dom().contains(k) ==> t@[k].0.name.key() == k }
+
+// ---- what the per-definition validators record (ASSUMED: they call record_type_ref for every type reference of the definition) ----
+pub uninterp spec fn directive_refs(s: &Schema) -> Set<Seq<char>>;
+pub uninterp spec fn def_refs(d: ExtendedType) -> Set<Seq<char>>;
+/// the bookkeeping after recording the references R (contract of record_type_ref, applied to each element of R)
+pub open spec fn recorded(b0: &BuiltInScalars, b1: &BuiltInScalars, s: &Schema, refs: Set<Seq<char>>) -> bool {
+    &&& b1.all == b0.all
+    &&& b1.used_and_defined@ == b0.used_and_defined@ + refs.filter(|k: Seq<char>| b0.all@.dom().contains(k) && s.types@.dom().contains(k))
+    &&& b1.used_and_undefined@ == b0.used_and_undefined@ + refs.filter(|k: Seq<char>| b0.all@.dom().contains(k) && !s.types@.dom().contains(k))
+}
+impl BuiltInScalars {
+    #[verifier::external_body]
+    pub fn new() -> (r: Self) ensures r.all == builtin_table(), table_wf(r.all), r.used_and_defined@ == Set::<Seq<char>>::empty(), r.used_and_undefined@ == Set::<Seq<char>>::empty() { unimplemented!() }
+}
+#[verifier::external_body]
+pub fn validate_schema_definition(errors: &mut DiagnosticList, schema: &Schema) { unimplemented!() }
+#[verifier::external_body]
+pub fn validate_directive_definitions(errors: &mut DiagnosticList, schema: &Schema, b: &mut BuiltInScalars) ensures recorded(old(b), final(b), schema, directive_refs(schema)) { unimplemented!() }
+#[verifier::external_body]
+pub fn validate_scalar_definition(errors: &mut DiagnosticList, schema: &Schema, def: &Node<ScalarType>) { unimplemented!() }
+#[verifier::external_body]
+pub fn validate_object_type_definition(errors: &mut DiagnosticList, schema: &Schema, b: &mut BuiltInScalars, def: &Node<ObjT>) ensures recorded(old(b), final(b), schema, def_refs(ExtendedType::Object(*def))) { unimplemented!() }
+#[verifier::external_body]
+pub fn validate_interface_definition(errors: &mut DiagnosticList, schema: &Schema, b: &mut BuiltInScalars, def: &Node<ObjT>) ensures recorded(old(b), final(b), schema, def_refs(ExtendedType::Interface(*def))) { unimplemented!() }
+#[verifier::external_body]
+pub fn validate_union_definition(errors: &mut DiagnosticList, schema: &Schema, def: &Node<ObjT>) { unimplemented!() }
+#[verifier::external_body]
+pub fn validate_enum_definition(errors: &mut DiagnosticList, schema: &Schema, def: &Node<ObjT>) { unimplemented!() }
+#[verifier::external_body]
+pub fn validate_input_object_definition(errors: &mut DiagnosticList, schema: &Schema, b: &mut BuiltInScalars, def: &Node<ObjT>) ensures recorded(old(b), final(b), schema, def_refs(ExtendedType::InputObject(*def))) { unimplemented!() }
+
+
+// ---------------- lemmas ----------------
+pub open spec fn ud_of(s: &Schema, all: &HashMap<Name, Node<ScalarType>>, r: Set<Seq<char>>) -> Set<Seq<char>> { r.filter(|k: Seq<char>| all@.dom().contains(k) && s.types@.dom().contains(k)) }
+pub open spec fn uu_of(s: &Schema, all: &HashMap<Name, Node<ScalarType>>, r: Set<Seq<char>>) -> Set<Seq<char>> { r.filter(|k: Seq<char>| all@.dom().contains(k) && !s.types@.dom().contains(k)) }
+/// recording R1 and then R2 is recording their union
+pub proof fn lemma_recorded_trans(b0: &BuiltInScalars, b1: &BuiltInScalars, b2: &BuiltInScalars, s: &Schema, r1: Set<Seq<char>>, r2: Set<Seq<char>>)
+    requires recorded(b0, b1, s, r1), recorded(b1, b2, s, r2)
+    ensures recorded(b0, b2, s, r1 + r2)
+{
+    assert(b2.used_and_defined@ =~= b0.used_and_defined@ + (r1 + r2).filter(|k: Seq<char>| b0.all@.dom().contains(k) && s.types@.dom().contains(k)));
+    assert(b2.used_and_undefined@ =~= b0.used_and_undefined@ + (r1 + r2).filter(|k: Seq<char>| b0.all@.dom().contains(k) && !s.types@.dom().contains(k)));
+}
+pub proof fn lemma_recorded_nothing(b0: &BuiltInScalars, b1: &BuiltInScalars, s: &Schema, r: Set<Seq<char>>)
+    requires recorded(b0, b1, s, r)
+    ensures recorded(b0, b1, s, r + Set::<Seq<char>>::empty())
+{
+    assert(r + Set::<Seq<char>>::empty() =~= r);
+}
+/// the two used-sets are disjoint subsets of the table's names; if their sizes add up to the table's size, every name of the table is in one of them
+pub proof fn lemma_all_used(a: Set<Seq<char>>, ud: Set<Seq<char>>, uu: Set<Seq<char>>)
+    requires ud.subset_of(a), uu.subset_of(a), ud.disjoint(uu)
+    ensures ud.len() + uu.len() <= a.len(), ud.len() + uu.len() == a.len() ==> ud + uu =~= a
+{
+    vstd::set_lib::lemma_len_subset(ud, a); vstd::set_lib::lemma_len_subset(uu, a);
+    vstd::set_lib::lemma_set_disjoint_lens(ud, uu);
+    vstd::set_lib::lemma_len_subset(ud + uu, a);
+    if ud.len() + uu.len() == a.len() { vstd::set_lib::lemma_subset_equality(ud + uu, a); }
+}
+// a HashMap holds at most usize::MAX entries (its len() is a usize) -- assumed
+#[verifier::external_body]
+pub proof fn axiom_table_size(t: &HashMap<Name, Node<ScalarType>>) ensures t@.dom().len() <= usize::MAX { }
+
+// ---------------- specification ----------------
+/// type references of the first n definitions that can contain any (objects, interfaces, input objects)
+pub open spec fn refs_upto(e: Seq<(Name, ExtendedType)>, n: int) -> Set<Seq<char>> decreases n {
+    if n <= 0 { Set::empty() } else {
+        let d = e[n - 1].1;
+        if d is Object || d is Interface || d is InputObject { refs_upto(e, n - 1) + def_refs(d) } else { refs_upto(e, n - 1) }
+    }
+}
+/// every type name the schema's directive definitions and type definitions refer to
+pub open spec fn refs(s: &Schema) -> Set<Seq<char>> { directive_refs(s) + refs_upto(s.types.entries(), s.types.entries().len() as int) }
+pub open spec fn among(e: Seq<Name>, j: int, k: Seq<char>) -> bool { exists|i: int| 0 <= i < j && #[trigger] e[i].key() == k }
+/// the type map after the removal step: unused built-in scalar definitions are gone, everything else is as it was
+pub open spec fn after_removal(s0: &Schema, all: &HashMap<Name, Node<ScalarType>>, t1: Map<Seq<char>, ExtendedType>) -> bool {
+    forall|k: Seq<char>| #![trigger t1.dom().contains(k)] (t1.dom().contains(k) <==> s0.types@.dom().contains(k) && !(spec_built_in(s0.types@[k]) && all@.dom().contains(k) && !refs(s0).contains(k)))
+        && (t1.dom().contains(k) ==> t1[k] == s0.types@[k])
+}
+/// "all referenced built-in scalars must be included; a built-in scalar that is not referenced anywhere must not be included"
+pub open spec fn types_after(s0: &Schema, all: &HashMap<Name, Node<ScalarType>>, k: Seq<char>) -> Option<ExtendedType> {
+    let used = all@.dom().contains(k) && refs(s0).contains(k);
+    if s0.types@.dom().contains(k) {
+        let d = s0.types@[k];
+        if spec_built_in(d) && all@.dom().contains(k) && !used { None } else { Some(d) }
+    } else if used { Some(ExtendedType::Scalar(all@[k])) } else { None }
+}
+
+/// C16 (first sentence, given that the references do not change): validating the result again leaves the type map as it is
+pub proof fn lemma_revalidation_is_identity(s0: &Schema, s1: &Schema, all: &HashMap<Name, Node<ScalarType>>)
+    requires
+        forall|k: Seq<char>| #![trigger s1.types@.dom().contains(k)] (s1.types@.dom().contains(k) <==> types_after(s0, all, k) is Some) && (s1.types@.dom().contains(k) ==> s1.types@[k] == types_after(s0, all, k)->0),
+        refs(s1) == refs(s0),
+    ensures
+        forall|k: Seq<char>| #![trigger s1.types@.dom().contains(k)] (s1.types@.dom().contains(k) <==> types_after(s1, all, k) is Some) && (s1.types@.dom().contains(k) ==> s1.types@[k] == types_after(s1, all, k)->0),
+{
+}
+/// C16 (second sentence): a built-in scalar that is referenced but has no definition is restored, as the table's definition
+pub proof fn lemma_referenced_scalar_is_restored(s0: &Schema, all: &HashMap<Name, Node<ScalarType>>, k: Seq<char>)
+    requires all@.dom().contains(k), refs(s0).contains(k), !s0.types@.dom().contains(k)
+    ensures types_after(s0, all, k) == Some(ExtendedType::Scalar(all@[k]))
+{
+}
 '''
 
 UNIT = {
     "name": "schema_rules",
-    "properties": ["C15", "C14"],
+    "properties": ["C15", "C14", "C16"],
     "parts": [
         PRELUDE,
         dict(file=SV, kind="fn", name="validate_type_system_name", props=["C15", "C14"],
@@ -89,6 +276,37 @@ UNIT = {
                       ("ensures", "the_report_names_the_name", "final(errors).entries@.len() > old(errors).entries@.len() ==> final(errors).entries@.last().data is ReservedName && final(errors).entries@.last().data->ReservedName_name == *name")],
              hints=[("body_start", None, 'proof { reveal_strlit("__"); assert("__"@.len() == 2 && "__"@[0] == \'_\' && "__"@[1] == \'_\'); }'),
                     ("body_end", None, 'proof { let t = name.text@; if t.len() >= 2 { assert(t.subrange(0, 2) =~= "__"@ <==> (t[0] == \'_\' && t[1] == \'_\')) by { if t[0] == \'_\' && t[1] == \'_\' { assert(t.subrange(0, 2) =~= "__"@); } else { assert(t.subrange(0, 2)[0] == t[0] && t.subrange(0, 2)[1] == t[1]); } } } }')]),
+        PRELUDE2,
+        dict(file=SV, kind="fn", name="validate_schema", props=["C15", "C16"], n_loops=2,
+             rewrites=[("for (name, def) in &schema.types {", "let mut __i: usize = 0; while __i < schema.types.len() { let (name, def) = schema.types.index_pair(__i); __i += 1;", 1),
+                       ("schema.types.retain(|name, def| {", "schema.types.retain(|name: &Name, def: &ExtendedType| -> (keep: bool) ensures keep == (!spec_built_in(*def) || !builtin_scalars.all@.dom().contains(name.key()) || builtin_scalars.used_and_defined@.contains(name.key())) {", 1),
+                       ("for name in builtin_scalars.used_and_undefined {", "let mut __j: usize = 0; let __n = builtin_scalars.used_and_undefined.elem_count(); while __j < __n { let name = builtin_scalars.used_and_undefined.elem(__j); __j += 1;", 1),
+                       ("&builtin_scalars.all[&name]", "builtin_scalars.all.index(&name)", 1)],
+             clauses=[("ensures", "built_in_scalars_present_iff_referenced_everything_else_kept",
+                       "forall|k: Seq<char>| #![trigger final(schema).types@.dom().contains(k)] (final(schema).types@.dom().contains(k) <==> types_after(old(schema), builtin_table(), k) is Some) "
+                       "&& (final(schema).types@.dom().contains(k) ==> final(schema).types@[k] == types_after(old(schema), builtin_table(), k)->0)")],
+             loops=[dict(invariant=[("bounds", "__i <= schema.types.entries().len()"),
+                                    ("schema_untouched", "*schema == *old(schema)"),
+                                    ("recorded_so_far", "builtin_scalars.all == builtin_table(), table_wf(builtin_scalars.all), recorded(&b0, &builtin_scalars, &*schema, directive_refs(&*schema) + refs_upto(schema.types.entries(), __i as int))")],
+                         decreases="schema.types.entries().len() - __i"),
+                    dict(invariant=[("bounds", "__j <= __n, __n == builtin_scalars.used_and_undefined.elems().len()"),
+                                    ("table", "builtin_scalars.all == builtin_table(), table_wf(builtin_scalars.all)"),
+                                    ("elements_are_the_used_and_undefined_names", "forall|k: Seq<char>| builtin_scalars.used_and_undefined@.contains(k) <==> among(builtin_scalars.used_and_undefined.elems(), __n as int, k), "
+                                     "builtin_scalars.used_and_undefined@ =~= uu_of(&*old(schema), builtin_scalars.all, refs(&*old(schema)))"),
+                                    ("after_removal", "after_removal(&*old(schema), builtin_scalars.all, t1)"),
+                                    ("inserted_so_far", "forall|k: Seq<char>| #![trigger schema.types@.dom().contains(k)] (schema.types@.dom().contains(k) <==> t1.dom().contains(k) || among(builtin_scalars.used_and_undefined.elems(), __j as int, k)) "
+                                     "&& (among(builtin_scalars.used_and_undefined.elems(), __j as int, k) ==> schema.types@[k] == ExtendedType::Scalar(builtin_scalars.all@[k])) "
+                                     "&& (t1.dom().contains(k) && !among(builtin_scalars.used_and_undefined.elems(), __j as int, k) ==> schema.types@[k] == t1[k])")],
+                         decreases="__n - __j")],
+             hints=[("after", "let mut builtin_scalars = BuiltInScalars::new();", "let ghost b0 = builtin_scalars;"),
+                    ("after_loop", 0, 'proof { let all = builtin_scalars.all; let r = refs(&*old(schema)); let ud = builtin_scalars.used_and_defined@; let uu = builtin_scalars.used_and_undefined@; assert(ud =~= ud_of(&*schema, all, r)); assert(uu =~= uu_of(&*schema, all, r)); lemma_all_used(all@.dom(), ud, uu); axiom_table_size(all); }'),
+                    ("before", "let mut __i: usize = 0;", 'proof { lemma_recorded_nothing(&b0, &builtin_scalars, &*schema, directive_refs(&*schema)); assert(refs_upto(schema.types.entries(), 0) =~= Set::<Seq<char>>::empty()); }'),
+                    ("loop_body_start", 0, 'let ghost bp = builtin_scalars;'),
+                    ("loop_body_end", 0, 'proof { let e = schema.types.entries(); let d = e[__i - 1].1; let r0 = directive_refs(&*schema) + refs_upto(e, __i - 1); if d is Object || d is Interface || d is InputObject { lemma_recorded_trans(&b0, &bp, &builtin_scalars, &*schema, r0, def_refs(d)); assert(r0 + def_refs(d) =~= directive_refs(&*schema) + refs_upto(e, __i as int)); } else { assert(refs_upto(e, __i as int) =~= refs_upto(e, __i - 1)); } }'),
+                    ("before", "let def = builtin_scalars.all.index(&name);", 'proof { let e = builtin_scalars.used_and_undefined.elems(); assert(e[__j - 1].key() == name.key()); assert(among(e, __n as int, name.key())); }'),
+                    ("loop_body_start", 1, 'let ghost tp = schema.types@;'),
+                    ("loop_body_end", 1, 'proof { let e = builtin_scalars.used_and_undefined.elems(); let nk = e[__j - 1].key(); assert forall|k: Seq<char>| among(e, __j as int, k) <==> (among(e, __j - 1, k) || k == nk) by { if among(e, __j as int, k) { let i = choose|i: int| 0 <= i < __j && #[trigger] e[i].key() == k; if i < __j - 1 { assert(among(e, __j - 1, k)); } } if among(e, __j - 1, k) { let i = choose|i: int| 0 <= i < __j - 1 && #[trigger] e[i].key() == k; assert(e[i].key() == k); assert(among(e, __j as int, k)); } if k == nk { assert(e[__j - 1].key() == k); assert(among(e, __j as int, k)); } } assert(schema.types@ =~= tp.insert(nk, ExtendedType::Scalar(builtin_scalars.all@[nk]))); }'),
+                    ("before", "let mut __j: usize = 0;", 'let ghost t1 = schema.types@; proof { let all = builtin_scalars.all; let r = refs(&*old(schema)); let ud = builtin_scalars.used_and_defined@; let uu = builtin_scalars.used_and_undefined@; assert forall|k: Seq<char>| #![trigger t1.dom().contains(k)] (t1.dom().contains(k) <==> old(schema).types@.dom().contains(k) && !(spec_built_in(old(schema).types@[k]) && all@.dom().contains(k) && !r.contains(k))) && (t1.dom().contains(k) ==> t1[k] == old(schema).types@[k]) by { if old(schema).types@.dom().contains(k) { assert(old(schema).types.key_name(k).key() == k || true); if all@.dom().contains(k) { assert(ud.contains(k) == r.contains(k)); assert((ud + uu).contains(k) == r.contains(k)); } } } assert(after_removal(&*old(schema), all, t1)); }')]),
         dict(file=SV, kind="fn", name="record_type_ref", container="BuiltInScalars", container_name="BuiltInScalars", wrap="impl BuiltInScalars", props=["C15"],
              clauses=[("ensures", "says_whether_it_is_a_built_in_scalar", "r == old(self).all@.dom().contains(name.key())"),
                       ("ensures", "used_and_defined_recorded", "final(self).used_and_defined@ == (if r && schema.types@.dom().contains(name.key()) { old(self).used_and_defined@.insert(name.key()) } else { old(self).used_and_defined@ })"),
